@@ -291,7 +291,7 @@ class Body:
             if "dc" in e:
                 return ("downcast", base, e.get("name") or e["dc"])
             if "i" in e:
-                return ("index", base, ("local", e["i"], None))
+                return ("index", base, self.expr_of_local(e["i"], 1))
             if "ci" in e:
                 return ("cindex", base, tuple(e["ci"]))
             if "sub" in e:
